@@ -18,11 +18,24 @@ TIMER_NAMES = {"Timer", "timer"}
 class LoopMixin:
     # ---- helpers ---------------------------------------------------------------------------------------------
     def loop_spec(self, node):
+        """Contract of a loop: keyed by header text, or `header#n` for the n-th loop (1-based, source order,
+        counted over the whole function) with that header text when the text occurs more than once."""
         h = header_text(node)
-        spec = self.c.loops.get(h) if self.c else None
-        if spec is not None:
-            self._loops_seen.add(h)
-        return spec, h
+        if not self.c:
+            return None, h
+        occ = None
+        if self.src is not None:
+            same = [n for n in ast.walk(self.src.fdef) if isinstance(n, (ast.For, ast.While)) and header_text(n) == h]
+            same.sort(key=lambda n: (n.lineno, n.col_offset))
+            for k, n in enumerate(same):
+                if n.lineno == node.lineno and n.col_offset == node.col_offset:
+                    occ = k + 1
+        for key in ([f"{h}#{occ}"] if occ else []) + [h]:
+            spec = self.c.loops.get(key)
+            if spec is not None:
+                self._loops_seen.add(key)
+                return spec, key
+        return None, h
 
     def inv_items(self, spec):
         inv = spec.invariants
